@@ -1473,7 +1473,9 @@ func judgeFault(r *vc.Run, prop string, res faultResult) {
 		r.Violate(fmt.Sprintf("replay-accepted|%s|%s|%s", f.Proto, f.Type, f.Kind), fmt.Sprintf("another participant's ring-Pedersen parameters and DLN proofs were replayed by %s and nobody objected (%s)", f.Deviator, f.String()), replay)
 	}
 	if f.Kind == "recommit-torsion" {
-		judgeTorsion(r, res, replay)
+		// for C05 this is a tie: the defence the property rests on (the clearing map at the door) is not in force on this run; the
+		// honest parties may still have named the deviator
+		judgeTorsion(r, res, replay, "tie|")
 	}
 	if res.BadOutput != "" {
 		r.Violate(fmt.Sprintf("bad-output|%s|%s|%s", f.Proto, f.Type, f.Field), fmt.Sprintf("an honest party produced a bad output under %s: %s", f.String(), res.BadOutput), replay)
@@ -1528,7 +1530,7 @@ func judgeFault(r *vc.Run, prop string, res faultResult) {
 // judgeTorsion: a deviation that consists only of a small-order component added to a committed point is removed at the door
 // (every EdDSA round applies the cofactor-clearing map to every point it receives before any check): the honest parties must end
 // exactly as in the unaltered run with the same seed - same outputs, no error.
-func judgeTorsion(r *vc.Run, res faultResult, replay string) {
+func judgeTorsion(r *vc.Run, res faultResult, replay string, keyPrefix string) {
 	f := res.Fault
 	if res.Applied < 2 {
 		if res.Applied < 0 {
@@ -1537,7 +1539,7 @@ func judgeTorsion(r *vc.Run, res faultResult, replay string) {
 		return
 	}
 	if len(res.Culprits) > 0 || res.Outcome != res.Baseline {
-		r.Violate(fmt.Sprintf("torsion-not-cleared|%s|%s", f.Proto, f.Type), fmt.Sprintf("a point of order two added to the last committed point of %s (commitment and opening consistent) changes the outcome for the honest parties: errors=%v, outputs %s vs %s in the unaltered run; the cofactor-clearing map at this door should have removed it", f.Deviator, res.ErrText, res.Outcome, res.Baseline), replay)
+		r.Violate(fmt.Sprintf("%storsion-not-cleared|%s|%s", keyPrefix, f.Proto, f.Type), fmt.Sprintf("a point of order two added to the last committed point of %s (commitment and opening consistent) changes the outcome for the honest parties: errors=%v, outputs %s vs %s in the unaltered run; the cofactor-clearing map at this door should have removed it", f.Deviator, res.ErrText, res.Outcome, res.Baseline), replay)
 	}
 }
 
@@ -1554,7 +1556,7 @@ func torsionRuns(r *vc.Run) {
 				res := runFault(fr, f, r.Seed+int64(31+di))
 				r.Dist["torsion-at-message-door/"+fr.proto]++
 				r.CountCase(f.String(), res.Applied >= 2, fmt.Sprintf("%s => applied=%d culprits=%v same-outcome=%v", f.String(), res.Applied, res.Culprits, res.Outcome == res.Baseline))
-				judgeTorsion(r, res, f.String())
+				judgeTorsion(r, res, f.String(), "")
 			}
 		}
 	}
